@@ -82,7 +82,8 @@ fn composites(schema: &SchemaDoc) -> Vec<String> {
     schema.defs.iter().filter(|d| !matches!(d, TypeDef::Extend { .. })).map(|d| d.name().to_string()).filter(|n| is_composite(schema, n)).collect()
 }
 
-pub const EDITS: [&str; 12] = [
+pub const EDITS: [&str; 13] = [
+    "field_renamed_in_schema",
     "typename_only_in_variant_fragment",
     "unknown_field",
     "subselection_on_leaf",
@@ -114,6 +115,30 @@ pub fn apply_edit(rng: &mut Rng, p: &Program, edit: &str) -> Option<Program> {
             let (list, i) = at_mut(&mut q.doc, &c.0);
             if let Sel::Field { name, .. } = &mut list[i] {
                 *name = "noSuchFieldHere".into();
+            }
+        }
+        // the query is left alone and the SCHEMA changes under it: the field it selects is renamed in the
+        // parent type's definition (the same query file was valid a moment ago, against the original schema)
+        "field_renamed_in_schema" => {
+            let c = pick(rng, pos.into_iter().filter(|(ps, s)| matches!(s, Sel::Field { name, .. } if name != "__typename") && matches!(p.schema.kind_of(&ps.parent_type), "OBJECT" | "INTERFACE")).collect())?;
+            let fname = if let Sel::Field { name, .. } = &c.1 { name.clone() } else { return None };
+            let parent = c.0.parent_type.clone();
+            let mut hit = false;
+            for d in q.schema.defs.iter_mut() {
+                match d {
+                    TypeDef::Object { name, fields, .. } | TypeDef::Interface { name, fields } | TypeDef::Extend { name, fields, .. } if *name == parent => {
+                        for f in fields.iter_mut() {
+                            if f.name == fname {
+                                f.name = format!("{}Renamed", fname);
+                                hit = true;
+                            }
+                        }
+                    }
+                    _ => {}
+                }
+            }
+            if !hit {
+                return None;
             }
         }
         "subselection_on_leaf" => {
